@@ -2,8 +2,8 @@ import UmProofs.BrokerScaleProjA
 /-!
 # C10 — projected slot counts are invariant under commits (part B: chunks and clusters)
 -/
-namespace Um.Broker
-open Um Um.Slots
+namespace Um.Broker.Scale
+open Um Um.Slots Um.Broker
 
 theorem halfDisj_congr {st : Option RangeList} {l l' : List MigStore} (h : impRanges l' = impRanges l) :
     HalfDisj st l' ↔ HalfDisj st l := by
@@ -131,4 +131,4 @@ theorem commitRes_chunkStep {c : Cluster} (hfix : ∀ m ∈ c.migs, compact m.ra
     subst hd
     exact chunkStep_land ranges mm mm.dstPart hfix' (hproj ch hmem) htw
 
-end Um.Broker
+end Um.Broker.Scale
